@@ -14,10 +14,9 @@
     * no data key `.length` after the first (`$x.length` is written `opt_data.x.length`, which JavaScript — and the
       reader — takes for the length function: same meaning, another tree; `Img` could be widened by a canonical form
       on expressions);
-    * `-isNonnull(e)`, `isNonnull(isNonnull(e))` and `{css isNonnull(e), n}` do not occur: soyjs writes
-      `(- e!= null)`, which JavaScript reads `(-e) != null` (ill-typed Soy: Go stops with an error; the JavaScript
-      prints `true`), resp. `e!= null!= null` / `e!= null + '-'` (valid, and `(e != null) != null` is what is meant;
-      `e != (null + '-')` is not);
+    * (`-isNonnull(e)`, `isNonnull(isNonnull(e))`, `{css isNonnull(e), n}` needed excluding before soyjs a5155c6 —
+      `e!= null` was a bare comparison, and `{css isNonnull($x), n}` printed `truen` for Go's `true-n`; isNonnull is
+      `(e != null)` now and these are in the image);
     * an `{if}` has a first condition, an `{else}` is last (the parser's shapes).
 -/
 import SoyVerif.Props.C14c
@@ -112,28 +111,20 @@ theorem loopFrame_mem : ∀ (st : List Frame) (v : Bytes) (f : Frame), Scope.loo
 
 /-! ## expressions -/
 
-/-- `isNonnull(e)`: the one call whose text `e!= null` stands at the level of an EqualityExpression -/
-def isNonnullCall : Expr → Bool
-  | .func _ name (.cons _ .nil) => name == sIsNonnull
-  | _ => false
-
 mutual
   /-- what is asked of a Soy expression (see the header) -/
   def ExprJs : Expr → Prop
     | .str _ _ v => ValidUtf8 v
-    | .neg _ a => ExprJs a ∧ isNonnullCall a = false
+    | .neg _ a => ExprJs a
     | .not _ a => ExprJs a
     | .bin _ _ a b => ExprJs a ∧ ExprJs b
     | .tern _ c a b => ExprJs c ∧ ExprJs a ∧ ExprJs b
     | .dataRef _ key acc => JsIdent key ∧ AccJs acc
-    | .func _ name args => ArgsJs args ∧ (name = sIsNonnull → ArgsNoNonnull args)
+    | .func _ _ args => ArgsJs args
     | _ => True
   def ArgsJs : ExprList → Prop
     | .nil => True
     | .cons e r => ExprJs e ∧ ArgsJs r
-  def ArgsNoNonnull : ExprList → Prop
-    | .nil => True
-    | .cons e r => isNonnullCall e = false ∧ ArgsNoNonnull r
   def AccJs : AccessList → Prop
     | .nil => True
     | .cons a r => AccessJs a ∧ AccJs r
@@ -260,32 +251,32 @@ variable [Globals]
     names, is in the image of Props/C14c; and its text stands at the level of a UnaryExpression unless the
     expression is a call of isNonnull -/
 theorem toAst_img (hg : GlobalsJs) (sc : Scope) (hs : ScImg sc) :
-    ∀ (e : Expr) (j : JsExpr), toAst sc e = some j → ExprJs e → Img j ∧ (isNonnullCall e = false → lv j ≤ 1)
+    ∀ (e : Expr) (j : JsExpr), toAst sc e = some j → ExprJs e → Img j ∧ lv j ≤ 1
   | .null _, j, h, _ => by
     simp only [toAst, Option.some.injEq] at h; subst h
-    exact ⟨trivial, fun _ => by simp [lv]⟩
+    exact ⟨trivial, by simp [lv]⟩
   | .bool _ b, j, h, _ => by
     simp only [toAst, Option.some.injEq] at h; subst h
-    exact ⟨trivial, fun _ => by simp [lv]⟩
+    exact ⟨trivial, by simp [lv]⟩
   | .int _ v, j, h, _ => by
     simp only [toAst, Option.some.injEq] at h; subst h
-    exact ⟨trivial, fun _ => by simp [lv]⟩
+    exact ⟨trivial, by simp [lv]⟩
   | .str _ _ v, j, h, he => by
     simp only [toAst, Option.some.injEq] at h; subst h
     simp only [ExprJs] at he
-    exact ⟨he, fun _ => by simp [lv]⟩
+    exact ⟨he, by simp [lv]⟩
   | .neg _ a, j, h, he => by
     simp only [toAst, Option.map_eq_some_iff] at h
     obtain ⟨ja, ha, rfl⟩ := h
     simp only [ExprJs] at he
-    have ia := toAst_img hg sc hs a ja ha he.1
-    exact ⟨by simp only [Img]; exact ⟨ia.1, ia.2 he.2⟩, fun _ => by simp [lv]⟩
+    have ia := toAst_img hg sc hs a ja ha he
+    exact ⟨by simp only [Img]; exact ⟨ia.1, ia.2⟩, by simp [lv]⟩
   | .not _ a, j, h, he => by
     simp only [toAst, Option.map_eq_some_iff] at h
     obtain ⟨ja, ha, rfl⟩ := h
     simp only [ExprJs] at he
     have ia := toAst_img hg sc hs a ja ha he
-    exact ⟨by simp only [Img]; exact ia.1, fun _ => by simp [lv]⟩
+    exact ⟨by simp only [Img]; exact ia.1, by simp [lv]⟩
   | .bin op _ a b, j, h, he => by
     unfold toAst at h
     simp only [ExprJs] at he
@@ -299,8 +290,8 @@ theorem toAst_img (hg : GlobalsJs) (sc : Scope) (hs : ScImg sc) :
         have ib := (toAst_img hg sc hs b jb hjb he.2).1
         cases op <;> simp only [hja, hjb, C04.opOf, Option.some.injEq, reduceCtorEq] at h <;>
           first
-            | (subst h; exact ⟨by simp only [Img]; exact ⟨ia, ib⟩, fun _ => by simp [lv]⟩)
-            | (subst h; exact ⟨by simp only [Img]; exact ⟨ia, ia, ib⟩, fun _ => by simp [lv]⟩)
+            | (subst h; exact ⟨by simp only [Img]; exact ⟨ia, ib⟩, by simp [lv]⟩)
+            | (subst h; exact ⟨by simp only [Img]; exact ⟨ia, ia, ib⟩, by simp [lv]⟩)
             | cases h
   | .tern _ c a b, j, h, he => by
     unfold toAst at h
@@ -317,7 +308,7 @@ theorem toAst_img (hg : GlobalsJs) (sc : Scope) (hs : ScImg sc) :
           simp only [hjc, hja, hjb, Option.some.injEq] at h
           subst h
           exact ⟨by simp only [Img]; exact ⟨(toAst_img hg sc hs c jc hjc he.1).1, (toAst_img hg sc hs a ja hja he.2.1).1,
-            (toAst_img hg sc hs b jb hjb he.2.2).1⟩, fun _ => by simp [lv]⟩
+            (toAst_img hg sc hs b jb hjb he.2.2).1⟩, by simp [lv]⟩
   | .global _ name, j, h, _ => by
     unfold toAst at h
     cases hv : assocGet? Globals.tbl name with
@@ -325,10 +316,10 @@ theorem toAst_img (hg : GlobalsJs) (sc : Scope) (hs : ScImg sc) :
     | some v =>
       simp only [hv] at h
       cases v <;> simp only [globalAst, Option.some.injEq, reduceCtorEq] at h <;> first | cases h | skip
-      · exact ⟨trivial, fun _ => by simp [lv]⟩
-      · exact ⟨trivial, fun _ => by simp [lv]⟩
-      · exact ⟨trivial, fun _ => by simp [lv]⟩
-      · exact ⟨by simp only [Img]; exact hg name _ hv, fun _ => by simp [lv]⟩
+      · exact ⟨trivial, by simp [lv]⟩
+      · exact ⟨trivial, by simp [lv]⟩
+      · exact ⟨trivial, by simp [lv]⟩
+      · exact ⟨by simp only [Img]; exact hg name _ hv, by simp [lv]⟩
   | .dataRef _ key acc, j, h, he => by
     unfold toAst at h
     simp only [ExprJs] at he
@@ -338,9 +329,9 @@ theorem toAst_img (hg : GlobalsJs) (sc : Scope) (hs : ScImg sc) :
       obtain ⟨h1, h2, h3, _⟩ := accAst_img acc .ijData j0 hacc trivial rfl he.2
       cases hn : anyNullSafe acc
       · simp only [Bool.false_eq_true, if_false]
-        exact ⟨h1, fun _ => by rw [h2 hn]; omega⟩
+        exact ⟨h1, by rw [h2 hn]; omega⟩
       · simp only [if_true]
-        exact ⟨by simp only [Img]; exact ⟨h1, h3⟩, fun _ => by simp [lv]⟩
+        exact ⟨by simp only [Img]; exact ⟨h1, h3⟩, by simp [lv]⟩
     split at h
     · cases h
     · simp only [Option.map_eq_some_iff] at h
@@ -353,15 +344,15 @@ theorem toAst_img (hg : GlobalsJs) (sc : Scope) (hs : ScImg sc) :
       obtain ⟨h1, h2, h3, _⟩ := accAst_img acc _ j0 hacc hbase.1 hbase.2 he.2
       cases hn : anyNullSafe acc
       · simp only [Bool.false_eq_true, if_false]
-        exact ⟨h1, fun _ => by rw [h2 hn]; omega⟩
+        exact ⟨h1, by rw [h2 hn]; omega⟩
       · simp only [if_true]
-        exact ⟨by simp only [Img]; exact ⟨h1, h3⟩, fun _ => by simp [lv]⟩
+        exact ⟨by simp only [Img]; exact ⟨h1, h3⟩, by simp [lv]⟩
   | .func _ name args, j, h, he => by
     unfold toAst at h
     simp only [ExprJs] at he
     split at h
     · have := loopAst_img hs name args j h
-      exact ⟨this.1, fun _ => by rw [this.2]; omega⟩
+      exact ⟨this.1, by rw [this.2]; omega⟩
     · cases args with
       | nil => simp at h
       | cons a r =>
@@ -377,23 +368,13 @@ theorem toAst_img (hg : GlobalsJs) (sc : Scope) (hs : ScImg sc) :
               simp only [hf, hja, Option.some.injEq] at h
               subst h
               simp only [ArgsJs] at he
-              have ia := toAst_img hg sc hs a ja hja he.1.1
+              have ia := toAst_img hg sc hs a ja hja he.1
               cases f with
-              | nonNull =>
-                have hname : name = sIsNonnull := by
-                  unfold fn1Of at hf
-                  split at hf
-                  · rename_i hn; simpa using hn
-                  · repeat (split at hf <;> first | cases hf | skip)
-                have hnn := he.2 hname
-                simp only [ArgsNoNonnull] at hnn
-                refine ⟨by simp only [Img]; exact ⟨ia.1, ia.2 hnn.1⟩, ?_⟩
-                intro hc
-                simp [isNonnullCall, hname] at hc
-              | length => exact ⟨by simp only [Img]; exact ia.1, fun _ => by simp [lv]⟩
-              | floor => exact ⟨by simp only [Img]; exact ia.1, fun _ => by simp [lv]⟩
-              | ceil => exact ⟨by simp only [Img]; exact ia.1, fun _ => by simp [lv]⟩
-              | round => exact ⟨by simp only [Img]; exact ia.1, fun _ => by simp [lv]⟩
+              | nonNull => exact ⟨by simp only [Img]; exact ⟨ia.1, ia.2⟩, by simp [lv]⟩
+              | length => exact ⟨by simp only [Img]; exact ia.1, by simp [lv]⟩
+              | floor => exact ⟨by simp only [Img]; exact ia.1, by simp [lv]⟩
+              | ceil => exact ⟨by simp only [Img]; exact ia.1, by simp [lv]⟩
+              | round => exact ⟨by simp only [Img]; exact ia.1, by simp [lv]⟩
         | cons b r2 =>
           cases r2 with
           | nil =>
@@ -410,9 +391,9 @@ theorem toAst_img (hg : GlobalsJs) (sc : Scope) (hs : ScImg sc) :
                   simp only [hf, hja, hjb, Option.some.injEq] at h
                   subst h
                   simp only [ArgsJs] at he
-                  have ia := toAst_img hg sc hs a ja hja he.1.1
-                  have ib := toAst_img hg sc hs b jb hjb he.1.2.1
-                  cases f <;> exact ⟨by simp only [Img]; exact ⟨ia.1, ib.1⟩, fun _ => by simp [lv]⟩
+                  have ia := toAst_img hg sc hs a ja hja he.1
+                  have ib := toAst_img hg sc hs b jb hjb he.2.1
+                  cases f <;> exact ⟨by simp only [Img]; exact ⟨ia.1, ib.1⟩, by simp [lv]⟩
           | cons _ _ => simp at h
   | .float _ _, _, h, _ => by simp [toAst] at h
   | .list _ _, _, h, _ => by simp [toAst] at h
@@ -526,7 +507,7 @@ mutual
     | .switch _ value cases => ExprJs value ∧ CasesJs cases
     | .letContent _ name body => JsIdent name ∧ BlockJs body
     | .call _ name _ data params => QName name ∧ (match data with | none => True | some e => ExprJs e) ∧ ParamsJs params
-    | .css _ e suffix => ValidUtf8 suffix ∧ (match e with | none => True | some x => ExprJs x ∧ isNonnullCall x = false)
+    | .css _ e suffix => ValidUtf8 suffix ∧ (match e with | none => True | some x => ExprJs x)
     | .msg _ _ _ _ _ body => PartsJs body
     | _ => True
   def PartsJs : MsgParts → Prop
@@ -816,8 +797,8 @@ mutual
       split at h
       · rename_i j hj
         simp only [Option.some.injEq] at h; subst h
-        have ij := toAst_img hg sc hs e j hj hc.2.1
-        exact ⟨by simp only [ImgSs, ImgS, JsStmts.one]; exact ⟨⟨hb, ij.1, ij.2 hc.2.2⟩, ⟨hb, hc.1⟩, trivial⟩, hs⟩
+        have ij := toAst_img hg sc hs e j hj hc.2
+        exact ⟨by simp only [ImgSs, ImgS, JsStmts.one]; exact ⟨⟨hb, ij.1, ij.2⟩, ⟨hb, hc.1⟩, trivial⟩, hs⟩
       · cases h
     | .debugger p, buf, sc, r, h, hs, _, _ => by
       simp only [toCmd, Option.some.injEq] at h; subst h
@@ -1002,7 +983,7 @@ end
   `{let}` / `{foreach}` / `{param}` are identifiers — but of LETTERS, which for the Go lexer includes letters outside
   ASCII (the generator copies them: Props/C14 `IsIdent`; here `JsIdent` asks for ASCII, the alphabet of Spec/JsParse).
   NOT guaranteed, and asked here: well-formed UTF-8 in raw text and string literals; no data key `length` behind a
-  `.`; no `-isNonnull(…)` / `isNonnull(isNonnull(…))` / `{css isNonnull(…), …}`; the first segment of a template's or
+  `.`; the first segment of a template's or
   callee's dotted name is no JavaScript reserved word (Soy has no such rule: `{namespace var.x}` is accepted — real
   soyjs then writes `var.x = …`, no JavaScript).  Variable names need no such condition: the generator appends `$n`.
   Outside the fragment altogether (`toFile = none`): floats, list / map literals, `[e]` accesses, a null-safe access
@@ -1166,8 +1147,6 @@ example : ∃ r ps s', toFile exFile = some r ∧ visitSoyFile id {} exFile init
     exact ⟨r, ps, s', rfl, h1, h2⟩
 
 -- the shapes the naming conditions exclude
-example : ¬ ExprJs (.neg 0 (.func 0 b!"isNonnull" (.cons (.dataRef 0 b!"x" .nil) .nil))) := by
-  simp [ExprJs, isNonnullCall, sIsNonnull]
 example : ¬ ExprJs (.dataRef 0 b!"x" (.cons (.key 0 false b!"length") .nil)) := by
   simp [ExprJs, AccJs, AccessJs, sLength]
 
